@@ -31,7 +31,7 @@ fn base_program(foo_params: Vec<ParamDecl>, foo_fields: Vec<Ty>, as_enum: bool, 
         DefKind::Struct(Style::Named, fields)
     };
     let mut foo = Def { module: vec!["m".into()], name: "Foo".into(), params: foo_params, kind, docs: vec![] };
-    make_compilable(&mut foo);
+    make_compilable(&mut foo, 1);
     let mut defs = vec![g, foo];
     if sibling_names {
         // hostile siblings in the same module: names the 1..k scheme would produce
@@ -45,7 +45,7 @@ fn base_program(foo_params: Vec<ParamDecl>, foo_fields: Vec<Ty>, as_enum: bool, 
             });
         }
     }
-    Program { krate: "krate".into(), defs, markers: vec![], roots: vec![] }
+    Program { krate: "krate".into(), defs, markers: vec![], roots: vec![], prefix: vec![] }
 }
 
 /// Field-type pool over leaves `leaves` (DESIGN.md 6 C03 W).
@@ -359,7 +359,7 @@ pub fn edit_program<R: Rng>(rng: &mut R, p: &mut Program) -> String {
             let i = if !special.is_empty() && rng.gen_bool(0.6) { *special.choose(rng).unwrap() } else { rng.gen_range(0..cands.len()) };
             if let Some(what) = mutate_ty(rng, &mut cands[i].ty) {
                 let name = p.defs[d].name.clone();
-                make_compilable(&mut p.defs[d]);
+                make_compilable(&mut p.defs[d], d);
                 return format!("{what} in {name}");
             }
         }
@@ -438,6 +438,6 @@ pub fn edit_program<R: Rng>(rng: &mut R, p: &mut Program) -> String {
             }
         }
     }
-    make_compilable(&mut p.defs[d]);
+    make_compilable(&mut p.defs[d], d);
     format!("{what} in {}", p.defs[d].name)
 }
